@@ -6,7 +6,9 @@
 (*   [op |-> "seek", p] / "prefetch" (maxc) / "read" (n; at, k) /                      *)
 (*   "readv" (chunks, maxc; res = Seq of <<at, k>>) / "write" (count) / "sync" /       *)
 (*   "closeW" (rejected = writes the server refused on that file) / "closeR" /         *)
-(*   "put" / "get" (a whole transfer; same = destination bytes equal source, derived)  *)
+(*   "put" / "get" (a whole transfer; fault = what the server did to one chunk:        *)
+(*       none | write_rejected | read_failed | read_eof | short_reads;                  *)
+(*       same = destination bytes equal source bytes, derived by the driver)            *)
 (* every call record has out = "ok" | "exc" | "hang" (blocked, see the driver) and     *)
 (* short = the server returned a short read during the call.                           *)
 (* `at` is where the returned bytes occur in the served file (the driver looks them    *)
@@ -61,7 +63,9 @@ Clauses ==
                                   \cup (IF R.out = "exc" THEN {"C_readv_raised"} ELSE {})
     [] R.op = "closeW" -> Blocked \cup (IF R.out = "ok" /\ R.rejected > 0 /\ ~wraised THEN {"P_write_error_lost"} ELSE {})
     [] R.op \in {"put", "get"} ->
-                          Blocked \cup (IF R.out = "ok" /\ ~R.same THEN {"P_silent_corruption"} ELSE {})
+                          Blocked \cup (IF R.out = "ok" /\ ~R.same /\ R.fault # "read_eof" THEN {"P_silent_corruption"} ELSE {})
+                                  \* an EOF status in the middle of a download is the server saying the file ends there
+                                  \cup (IF R.out = "ok" /\ ~R.same /\ R.fault = "read_eof" THEN {"C_truncated_at_server_eof"} ELSE {})
                                   \cup (IF R.out = "exc" /\ R.fault = "none" THEN {"C_raised_without_fault"} ELSE {})
     [] OTHER           -> Blocked
 Key ==
